@@ -151,10 +151,20 @@ func Build(spec Spec) *Built {
 			fapi.Decls = append(fapi.Decls, n)
 			helpers = append(helpers, fn)
 		}
-		nTypes := 3
+		if fexcl != nil {
+			// annotated functions in a pool-token file: inert while the file is excluded (C14)
+			n1, f1 := b.FuncNode(d, "LegacyHelper", true, nil, fexcl, nil)
+			n2, f2 := b.FuncNode(d, "LegacyGate", false, b.randAllow(r, allowPool), fexcl, nil)
+			fexcl.Decls = append(fexcl.Decls, n1, n2)
+			helpers = append(helpers, f1, f2, f1)
+		}
+		nTypes := 4
 		for ti := 0; ti < nTypes; ti++ {
 			t := &Type{Pkg: d, Kind: "struct", Mutable: map[string]bool{}}
 			t.Name = typeNames[(ti+di)%len(typeNames)]
+			if ti == 3 {
+				t.Name = "hidden" + typeNames[(ti+di)%len(typeNames)] // unexported type handed out through exported API
+			}
 			if ti == 2 {
 				t.Kind = "int"
 				t.Name = "Cnt"
@@ -282,6 +292,29 @@ func Build(spec Spec) *Built {
 			// listed constructor with writes and instantiations inside (exempt)
 			if t.Ctors != nil && hasStr(t.Ctors, "Make"+t.Name) {
 				body, _ := stmts(pick(noDecl, 6), "", "in-ctor")
+				// the constructor of THIS type also writes / instantiates ANOTHER annotated type of the package:
+				// the exemption is per type, whatever the statement order
+				if len(infos) >= 2 && infos[len(infos)-2].t.Pkg == d {
+					other := infos[len(infos)-2]
+					var ob []*Node
+					for _, tm := range tmpls {
+						if (tm.Name == "assign" || tm.Name == "inc" || tm.Name == "lit" || tm.Name == "new" || tm.Name == "var") && (tm.Kind == "" || tm.Kind == other.t.Kind) {
+							ns := tm.Make(b, other.t, other.env)
+							for _, n := range ns {
+								for _, l := range n.flat(nil) {
+									l.Feature = "other-type-inside-constructor"
+								}
+							}
+							ob = append(ob, ns...)
+							bt.Hist[tm.Name+"@other-type-in-ctor"]++
+						}
+					}
+					if r.Bool() {
+						body = append(ob, body...)
+					} else {
+						body = append(body, ob...)
+					}
+				}
 				w := nest[ncur%len(nest)]
 				ncur++
 				n, _ := b.FuncNode(d, "Make"+t.Name, false, nil, fuse, w.Wrap(b, body))
@@ -432,6 +465,9 @@ func Build(spec Spec) *Built {
 					if tm.OnlyD || (tm.Kind != "" && tm.Kind != t.Kind) {
 						continue
 					}
+					if !exportedName(t.Name) && !tm.NoImp {
+						continue // an importer cannot name an unexported type; it can still hold and mutate its values
+					}
 					if t.Kind == "int" && tm.Cat == IMM {
 						continue
 					}
@@ -494,7 +530,7 @@ func Build(spec Spec) *Built {
 				f = files[r.Intn(len(files))]
 			}
 			// a file that does not import the declaring package: values arrive through a package-local helper
-			if t.Kind == "struct" {
+			if t.Kind == "struct" && exportedName(t.Name) {
 				gname := b.d("get" + t.Name)
 				gfn := &Func{Pkg: u, Name: gname, File: fa}
 				gn := &Node{Fn: gfn, Pin: fa.Name}
@@ -543,7 +579,7 @@ func Build(spec Spec) *Built {
 				fnoimp.Decls = append(fnoimp.Decls, n)
 			}
 			// inside a @testonly function of the using package: TONL silent, everything else as usual
-			{
+			if ui != 1 { // package u1 declares no annotated item of its own
 				body, _ := stmts(pick(noDecl, 3), "", "in-testonly-func")
 				n, _ := b.FuncNode(u, b.d("tonly"), true, nil, f, body)
 				f.Decls = append(f.Decls, n)
@@ -558,7 +594,7 @@ func Build(spec Spec) *Built {
 					f.Decls = append(f.Decls, init)
 				}
 				// package-level variables
-				if t.Kind == "struct" {
+				if t.Kind == "struct" && exportedName(t.Name) {
 					g1, g2, g3 := b.d("g"), b.d("g"), b.d("g")
 					vs := []*Node{
 						b.tstmt("var "+g1+" %T", useT(UVarZero, t, ""), refT(t, SubVar)),
@@ -576,7 +612,7 @@ func Build(spec Spec) *Built {
 				// a function of this package that merely has the name of a listed constructor
 				if t.Ctors != nil && !usedNames[t.Ctors[0]] {
 					usedNames[t.Ctors[0]] = true
-					body, _ := stmts(pick(func(tm Tmpl) bool { return !tm.Decl && (tm.Cat == IMM || tm.Cat == CTOR) }, 4), "xpkg-ctor-name", "xpkg-ctor-name")
+					body, _ := stmts(pick(func(tm Tmpl) bool { return !tm.Decl && (tm.Cat == IMM || tm.Cat == CTOR) && (exportedName(t.Name) || tm.NoImp) }, 4), "xpkg-ctor-name", "xpkg-ctor-name")
 					n, _ := b.FuncNode(u, t.Ctors[0], false, nil, f, body)
 					f.Decls = append(f.Decls, n)
 				}
@@ -628,7 +664,7 @@ func Build(spec Spec) *Built {
 			// files that END in a one-line top-level declaration carrying a violation
 			for _, f := range files {
 				inf := infos[r.Intn(len(infos))]
-				if inf.t.Kind != "struct" {
+				if inf.t.Kind != "struct" || !exportedName(inf.t.Name) {
 					inf = infos[0]
 				}
 				n := b.tstmt("var "+b.d("gl")+" %T", useT(UVarZero, inf.t, ""), refT(inf.t, SubVar))
@@ -651,7 +687,7 @@ func Build(spec Spec) *Built {
 		tf := b.NewFile(t0, "t.go")
 		wf := b.NewFile(w0, "w.go")
 		for i, inf := range infos {
-			if inf.t.Kind != "struct" || i > 3 {
+			if inf.t.Kind != "struct" || i > 3 || !exportedName(inf.t.Name) {
 				continue
 			}
 			g := &Func{Pkg: t0, Name: fmt.Sprintf("Get%d%s", i, inf.t.Name), File: tf}
@@ -878,3 +914,5 @@ end:
 	n.Pin = f.Name
 	f.Decls = append(f.Decls, n)
 }
+
+func exportedName(n string) bool { return n != "" && n[0] >= 'A' && n[0] <= 'Z' }
